@@ -23,12 +23,26 @@ ASSUMPTIONS = [
 ]
 TRUSTED = []
 MANIFEST = dict(
-    text="Coq model of reseat_bpm_changes_snap (fuelled loop with the three branches), from_bpm_changes_snap(reseat=True) and "
-         "TimingMap.reseat; specification by integration (every point seated, original times kept, <=1 extra point per interval, "
-         "bpm kept on whole measures, seated lists are fixed points) decided by a boolean oracle evaluated in Coq on the "
-         "implementation's output; structural equality model=implementation on exact rationals; theorems in Props/C11.v.",
-    note="Trusted: Coq kernel+VM, harness generator/serialiser; exact-arithmetic stream only; extend-window sub-cases are known findings.",
-    technique="Coq proof over executable model + vm_compute correspondence and oracle on implementation output",
+    text="Coq model of reseat_bpm_changes_snap (fuelled loop, three branches with replace/insert sub-cases), "
+         "from_bpm_changes_snap(reseat=True) and TimingMap.reseat, tied to the code on every run by structural equality on exact "
+         "rationals. Proved for ALL tempo lists in the domain wf_unseated (first change at measure 0 beat 0, strictly increasing "
+         "positions, positive bpm, one shared integer metronome 1..8), Props/C11.v: (1) termination: the loop never exhausts "
+         "fuel 2*len+2, on every branch (each original interval costs at most two passes); (2) under the input guard "
+         "reseat_guard (every gap's measure/beat remainder is 0 or > 0.001, or lies in the extend window with >= 1 whole "
+         "measure before it, or in the beat window with the gap shorter than one measure) the result exists, every point is "
+         "on a measure line with measures strictly increasing from 0, every original time is a tempo point in order, at most "
+         "one extra point lies strictly inside each original interval and none outside, length <= 2n-1, the bpm is kept "
+         "after a whole number of measures, elapsed time between originals is unchanged, result times strictly increase, and "
+         "from_bpm_changes_snap(init, l, reseat=True) puts its tempo points at init + the result's times for any initial offset; "
+         "no_extend (no extend branch taken) is the special case; (3) a seated list is returned with the same times and bpms, "
+         "no guard needed; (4) the boolean oracle reseat_specb is sound for the clause-by-clause Prop statement on any "
+         "pair of lists and accepts every model output in the guarded domain; (5) the two known findings are theorems with "
+         "concrete witnesses outside the guard (extend-by-metronome insertion loses the original time; a gap below 0.001 "
+         "measure raises or yields non-increasing measures). The oracle is evaluated in Coq on the implementation's output.",
+    note="Trusted: Coq kernel+VM, harness generator/serialiser; exact-arithmetic stream only (binary64 not claimed). Not proved: "
+         "oracle completeness, necessity of the guard (observed exact on 6000 outputs), TimingMap.reseat() beyond correspondence.",
+    technique="Coq proof over executable model (loop = structural function by list surgery, per-gap arithmetic lemma, "
+              "timeline refinement by induction) + vm_compute correspondence and oracle on implementation output",
     design="4/C11")
 
 BPMS = [Fr(120), Fr(175), Fr(311, 2), Fr(60), Fr(200), Fr(13333, 100), Fr(90), Fr(222, 7)]
